@@ -50,6 +50,20 @@ type Env struct {
 
 func (e *Env) child() *Env { return &Env{parent: e, ex: e.ex} }
 
+// compositeFieldType: declared type of var.field when var is a PL/pgSQL variable currently holding a composite value
+func (e *Env) compositeFieldType(cr *ColRef) string {
+	for env := e; env != nil; env = env.parent {
+		if env.vars != nil {
+			if v, ok := env.vars[cr.Table]; ok {
+				if c, ok := (*v).(Comp); ok {
+					return compositeFieldTypes[c.Type][cr.Name]
+				}
+			}
+		}
+	}
+	return ""
+}
+
 func (e *Env) lookupCol(tbl, name string) (Value, bool, error) {
 	for env := e; env != nil; env = env.parent {
 		if tbl == "" {
@@ -163,7 +177,7 @@ func (e *Env) Eval(x Expr) Value {
 			if n.Table == "" {
 				switch n.Name {
 				case "current_schema":
-					return e.ex.db.DefaultSchema
+					return e.ex.sch("")
 				case "current_timestamp":
 					return e.ex.sess.stmtTime()
 				}
@@ -846,8 +860,23 @@ func (e *Env) evalFunc(f *FuncExpr) Value {
 	ex := e.ex
 	switch f.Name {
 	case "coalesce":
+		// PG doc 10.5 (UNION, CASE and related constructs): the result has the common type of the arguments, an untyped literal
+		// takes the type of the others. pgsem's NULLs carry no type; the one case where this is observable in the ledger's SQL is
+		// coalesce(<composite variable>.<bytea field>, '') || <text> in create_block: the literal is an (empty) bytea, and bytea || text
+		// resolves to anynonarray || text, i.e. the bytea goes through its output function (\x...).
 		for _, a := range f.Args {
 			if v := e.Eval(a); v != nil {
+				if u, ok := v.(Unknown); ok {
+					for _, b := range f.Args {
+						if cr, ok := b.(*ColRef); ok && cr.Table != "" && e.compositeFieldType(cr) == "bytea" {
+							bv, err := Cast(u, "bytea")
+							if err != nil {
+								panic(err)
+							}
+							return bv
+						}
+					}
+				}
 				return v
 			}
 		}
@@ -1039,7 +1068,7 @@ func (e *Env) evalFunc(f *FuncExpr) Value {
 		h := sha256.Sum256(data)
 		return h[:]
 	case "nextval":
-		return big.NewInt(ex.db.nextval(seqName(text(a[0]))))
+		return big.NewInt(ex.db.nextval(ex.seqKey(text(a[0]))))
 	case "setval":
 		if strict() {
 			return nil
@@ -1048,7 +1077,7 @@ func (e *Env) evalFunc(f *FuncExpr) Value {
 		if len(a) > 2 {
 			isCalled, _ = truth(a[2])
 		}
-		ex.db.setval(seqName(text(a[0])), asNum(a[1]).Int64(), isCalled)
+		ex.db.setval(ex.seqKey(text(a[0])), asNum(a[1]).Int64(), isCalled)
 		return asNum(a[1])
 	case "transaction_date":
 		return ex.sess.txDate()
@@ -1107,7 +1136,7 @@ func (e *Env) evalFunc(f *FuncExpr) Value {
 	case "version":
 		return "PostgreSQL 16 (pgsem model)"
 	case "current_schema":
-		return ex.db.DefaultSchema
+		return ex.sch("")
 	}
 	// user-defined (PL/pgSQL) function
 	if fn := ex.db.funcs[f.Name]; fn != nil {
